@@ -278,6 +278,16 @@ func InModule(fn *ssa.Function) bool {
 		if fn.Parent() != nil {
 			return InModule(fn.Parent())
 		}
+		// synthetic wrappers (promoted methods, bound methods) have no package: use the receiver's
+		if fn.Signature.Recv() != nil {
+			t := fn.Signature.Recv().Type()
+			if p, ok := t.(*types.Pointer); ok {
+				t = p.Elem()
+			}
+			if n, ok := t.(*types.Named); ok && n.Obj().Pkg() != nil {
+				return strings.HasPrefix(n.Obj().Pkg().Path(), Module)
+			}
+		}
 		return false
 	}
 	return strings.HasPrefix(pk.Pkg.Path(), Module)
